@@ -10,7 +10,7 @@ template<class V> void sweep(const char* type, std::true_type) {
     SameFp<T> eq;
     // every one of the 2^32 float patterns; ceil/floor/trunc/round under round-to-nearest and one rotating other mode,
     // nearbyint/rint under all four modes
-    for (int mi = 0; mi < 4; ++mi) {
+    for (int mi = 0; mi < VK_NMODES; ++mi) {
         const int mode = ROUND_MODES[mi];
         fp_set(mode, false);
         std::string sfx = std::string("@") + round_name(mode) + "/all2^32";
@@ -33,7 +33,7 @@ void run(const char* type) {
     const bool big = opt().thorough;
     auto vals = flt_values<T>(scaled(big ? 8000000 : 400000), opt().seed);
     SameFp<T> eq;
-    for (int mi = 0; mi < 4; ++mi) {
+    for (int mi = 0; mi < VK_NMODES; ++mi) {
         const int mode = ROUND_MODES[mi];
         fp_set(mode, false);
         std::string sfx = std::string("@") + round_name(mode);
